@@ -14,12 +14,24 @@
   the text the decoder renders is read back by the encoder as the same pair (`bigfloat_text_roundtrip`), and the bytes the encoder writes
   denote that pair under RFC 8949 §3.4.4 (`bigfloat_bytes_roundtrip`). D79 (a bignum mantissa came back as garbled text) lived here.
 
+  Proved here (MessagePack, the data-model core): Model JV.Model.Msgpack.encode = what `encode_msgpack` writes for null / bool /
+  every int64 and uint64 (positive fixint, uint8/16/32/64, negative fixint, int8/16/32/64) / doubles (float32 when exact, else float64)
+  / UTF-8 text (fixstr, str8/16/32) / byte strings (bin8/16/32) / arrays (fixarray, array16/32) / maps (fixmap, map16/32) at any
+  nesting — tied to the real encoder BYTE FOR BYTE by the `msgpack-encoder-model` correspondence stream (every integer-width and
+  length boundary up to 2^16 with both neighbours; 2^32-byte payloads are not run). For every such value with lengths below 2^32
+  (the widest length field of the format) the reference MessagePack decoder (JV.Spec.Msgpack, the one the real decoder is judged
+  by in C07) reads the bytes back as exactly that value and leaves any following bytes untouched (`msgpack_roundtrip`); the integer
+  ladder is covered for every integer in [-2^63, 2^64) by case split (`msgpack_int_head_roundtrip`, `msgpack_int_width`).
+  Not in the theorem: timestamps (ext -1), other ext types, bigint/bigdec strings (plain text in MessagePack), and what
+  the real encoder does for a length >= 2^32 (it writes NO head at all - the model reproduces that, `OKm` excludes it).
+
   Decided per case on the real code, not proved: the other semantic tags, string packing (stringref; D26 was
-  found there and repaired), typed arrays, and the MessagePack / UBJSON / BSON round trips under
+  found there and repaired), typed arrays, MessagePack timestamps, and the UBJSON / BSON round trips under
   their documented mappings (see the check's streams).
 -/
 import JV.Proofs.CborRoundtrip
 import JV.Proofs.BigFloat
+import JV.Proofs.MsgpackRoundtrip
 namespace JV.Props.C06
 open JV Model.Cbor Spec.Cbor
 
@@ -75,6 +87,66 @@ theorem bigfloat_render_encode_decode (m e : Int) (he : Model.BigFloat.fitsInt64
   obtain ⟨bytes, h1, h2⟩ := bigfloat_bytes_roundtrip m e he hlen []
   exact ⟨bytes, by simp [Model.BigFloat.encodeText, bigfloat_text_roundtrip, h1], by simpa using h2⟩
 
+/-! ### MessagePack -/
+
+/-- the documented mapping from the data-model core to what the reference decoders deliver (no tags on the core) -/
+abbrev toValue : CV → BV := toBV
+
+/-- encode then decode is the identity on the MessagePack image of the core, for ALL values (any nesting), whatever follows the item.
+    `OKm`: integers in [-2^63, 2^64), valid UTF-8 text, doubles on which the float32 shortcut is lossless
+    (`float32_shortcut_lossless` gives that outside the binary32-subnormal band), every length below 2^32. -/
+theorem msgpack_roundtrip (v : CV) (hv : Model.Msgpack.OKm v) (rest : Bytes) :
+    ∃ fuel, Spec.Msgpack.item fuel (Model.Msgpack.encode v ++ rest) = .ok (toValue v) rest :=
+  ⟨need v, Model.Msgpack.enc_dec v rest (need v) hv (Nat.le_refl _)⟩
+
+/-- … and more fuel never changes the answer -/
+theorem msgpack_roundtrip_any_fuel (v : CV) (hv : Model.Msgpack.OKm v) (rest : Bytes) (fuel : Nat) (hf : need v ≤ fuel) :
+    Spec.Msgpack.item fuel (Model.Msgpack.encode v ++ rest) = .ok (toValue v) rest :=
+  Model.Msgpack.enc_dec v rest fuel hv hf
+
+/-- every integer in [-2^63, 2^64) - positive fixint, uint8/16/32/64, negative fixint, int8/16/32/64, all ten rungs of the ladder by
+    case split, none sampled - is read back as itself -/
+theorem msgpack_int_head_roundtrip (i : Int) (hlo : -(2 ^ 63 : Int) ≤ i) (hhi : i < 2 ^ 64) (rest : Bytes) (fuel : Nat) :
+    Spec.Msgpack.item (fuel + 1) (Model.Msgpack.writeInt i ++ rest) = .ok (.int i "") rest :=
+  Model.Msgpack.item_int fuel i rest hlo hhi
+
+/-- the integer ladder never writes more than the value needs: 1, 2, 3, 5 or 9 bytes, chosen by magnitude -/
+theorem msgpack_int_width (i : Int) :
+    (Model.Msgpack.writeInt i).length =
+      if -32 ≤ i ∧ i ≤ 127 then 1 else if -128 ≤ i ∧ i ≤ 255 then 2 else if -32768 ≤ i ∧ i ≤ 65535 then 3
+      else if -2147483648 ≤ i ∧ i ≤ 4294967295 then 5 else 9 := by
+  unfold Model.Msgpack.writeInt
+  by_cases hv : i ≥ 0
+  · simp only [hv, if_true]
+    repeat' split
+    all_goals simp [Model.Msgpack.length_beBytes]
+    all_goals omega
+  · simp only [hv, if_false]
+    repeat' split
+    all_goals simp [Model.Msgpack.length_beBytes]
+    all_goals omega
+
+/-- text of any length below 2^32 (fixstr / str8 / str16 / str32 chosen by the ladder) is read back exactly -/
+theorem msgpack_text_roundtrip (s rest : Bytes) (hl : s.length < 2 ^ 32) (hv : Spec.Rfc8259.validUtf8 s = true) (fuel : Nat) :
+    Spec.Msgpack.item (fuel + 1) (Model.Msgpack.strHead s.length ++ s ++ rest) = .ok (.str s "") rest :=
+  Model.Msgpack.item_text fuel s rest hl hv
+
+/-- byte strings of any length below 2^32 (bin8 / bin16 / bin32) are read back exactly -/
+theorem msgpack_bytes_roundtrip (b rest : Bytes) (hl : b.length < 2 ^ 32) (fuel : Nat) :
+    Spec.Msgpack.item (fuel + 1) (Model.Msgpack.binHead b.length ++ b ++ rest) = .ok (.bytes b "") rest :=
+  Model.Msgpack.item_bytes fuel b rest hl
+
+/-- the array and map heads announce exactly the element count that was written, for every count below 2^32 -/
+theorem msgpack_container_heads (n : Nat) (hn : n < 2 ^ 32) (body : Bytes) (fuel : Nat) :
+    Spec.Msgpack.item (fuel + 1) (Model.Msgpack.arrHead n ++ body) = Spec.Msgpack.wrapArr (Spec.Msgpack.items fuel n body) ∧
+    Spec.Msgpack.item (fuel + 1) (Model.Msgpack.mapHead n ++ body) = Spec.Msgpack.wrapMap (Spec.Msgpack.members fuel n body) :=
+  ⟨Model.Msgpack.item_arrHead fuel n body hn, Model.Msgpack.item_mapHead fuel n body hn⟩
+
+/-- doubles: the 64-bit pattern comes back bit for bit (also through the float32 shortcut, when `DoubleOK`) -/
+theorem msgpack_double_roundtrip (b : Nat) (h : DoubleOK b) (rest : Bytes) (fuel : Nat) :
+    Spec.Msgpack.item (fuel + 1) (Model.Msgpack.encodeDouble b ++ rest) = .ok (.dbl b "") rest :=
+  Model.Msgpack.item_double fuel b rest h
+
 /-! ### non-vacuity -/
 /-- "0x10000000000000000p-3" -/
 example : Model.BigFloat.render (2 ^ 64) (-3) = [48, 120, 49, 48, 48, 48, 48, 48, 48, 48, 48, 48, 48, 48, 48, 48, 48, 48, 48, 112, 45, 51] := by
@@ -94,5 +166,17 @@ example : OK sample := by
 example : encode (.arr [.int 23, .int 24, .str [97]]) = [0x83, 0x17, 0x18, 0x18, 0x61, 0x61] := by decide
 example : encodeDouble 0x3ff8000000000000 = [0xfa, 0x3f, 0xc0, 0, 0] := by decide
 example : encodeDouble 0x3ff199999999999a = [0xfb, 0x3f, 0xf1, 0x99, 0x99, 0x99, 0x99, 0x99, 0x9a] := by decide
+
+/-! MessagePack: the sample is in the domain, the model writes the bytes of the specification's examples, and the reference decoder
+    reads the sample's bytes back (computed, not assumed) -/
+example : Model.Msgpack.OKm sample := by
+  simp [sample, Model.Msgpack.OKm, Model.Msgpack.OKmList, Model.Msgpack.OKmMembers, Spec.Rfc8259.validUtf8]
+example : Model.Msgpack.encode (.arr [.int 127, .int 128, .int (-32), .int (-33), .int 65536, .str [97], .bytes [1], .null, .bool true]) =
+    [0x99, 0x7f, 0xcc, 0x80, 0xe0, 0xd0, 0xdf, 0xce, 0, 1, 0, 0, 0xa1, 0x61, 0xc4, 1, 1, 0xc0, 0xc3] := by decide
+example : Model.Msgpack.encode (.map [([97], .int (-(2 ^ 63))), ([98], .int (2 ^ 64 - 1))]) =
+    [0x82, 0xa1, 0x61, 0xd3, 0x80, 0, 0, 0, 0, 0, 0, 0, 0xa1, 0x62, 0xcf, 255, 255, 255, 255, 255, 255, 255, 255] := by decide
+example : Model.Msgpack.encodeDouble 0x3ff8000000000000 = [0xca, 0x3f, 0xc0, 0, 0] := by decide
+example : Model.Msgpack.encodeDouble 0x3ff199999999999a = [0xcb, 0x3f, 0xf1, 0x99, 0x99, 0x99, 0x99, 0x99, 0x9a] := by decide
+example : Spec.Msgpack.decode (Model.Msgpack.encode sample) = .ok (toValue sample) [] := by rfl
 
 end JV.Props.C06
